@@ -215,8 +215,8 @@ GROUP = Group(
                  'records of their keyword arguments; payload generation (get_*_event_payload) is abstract in '
                  'create_emsg_boxes / create_manifest_context',
                  'C14: MPEG_TIMEBASE == 90000 (dashlive/mpeg/__init__.py)'],
-    not_covered=['SCTE-35 binary encode/parse round trip and CRC (BitsFieldWriter/Reader traces): not built; the field '
-                 'values handed to the encoder and their widths are proved (create_binary_signal/post.widths)',
+    not_covered=['the SCTE-35 binary encode / parse round trip is proved in group scte35 (same property); here only the field '
+                 'values handed to the encoder and their widths (create_binary_signal/post.widths)',
                  'EventFactory / option parsing -> preconditions of create_emsg_boxes (interval >= 1): known findings under C16',
                  'exactly-once across consecutive segments: follows from the per-segment exact-set postcondition only if '
                  'consecutive segments have b(k) == a(k+1), i.e. the same floor of the same tick count (C02 gaplessness); '
